@@ -492,7 +492,10 @@ fn free_text() -> BoxedStrategy<String> {
     .boxed()
 }
 fn short_id() -> BoxedStrategy<String> {
-    prop::sample::select(vec!["APP", "CTX1", "DR", "TIME", "A", "é1", "x&y"]).prop_map(|s| s.to_string()).boxed()
+    // mostly ids that fit the 4-byte wire field; a FIBEX document may also carry longer ones (kept verbatim by the loader)
+    prop::sample::select(vec!["APP", "CTX1", "DR", "TIME", "A", "é1", "x&y", "APP", "CTX1", "DR", "TIME", "MOTÖR", "AB€1", "LONGAPPID", "日本語", "APP10", "abcé"])
+        .prop_map(|s| s.to_string())
+        .boxed()
 }
 
 /// distinct ascending sequence numbers for `n` children
